@@ -490,8 +490,9 @@ def finish(ctx, level="proof"):
         "violations": len(ctx.violations),
         "notes": ctx.notes,
     }
-    os.makedirs(EVID, exist_ok=True)
-    with open(os.path.join(EVID, "%s.json" % ctx.prop), "w") as f:
+    evid = os.environ.get("VERIF_EVIDENCE_DIR") or EVID     # bin/seedrun redirects evidence of mutant runs
+    os.makedirs(evid, exist_ok=True)
+    with open(os.path.join(evid, "%s.json" % ctx.prop), "w") as f:
         json.dump(ev, f, indent=1, default=str)
     return 1 if ctx.violations else 0
 
